@@ -201,6 +201,9 @@ static void dft_stage_init(
     else f->post_peak = num_taps / 2;
 
     dft_length = set_dft_length(num_taps, (int)min_dft_size, (int)large_dft_size);
+    if (lsx_is_power_of_2(L))          /* The forward transform has dft_length / L */
+      while (dft_length < 32 * L)      /* points; the SIMD FFT needs at least 32.  */
+        dft_length <<= 1;
     f->coefs = rdft_calloc((size_t)dft_length, sizeof_real);
     offset = dft_length - num_taps + 1;
     m = (1. / dft_length) * rdft_multiplier() * L * *multiplier;
